@@ -272,11 +272,15 @@ class OctetStringEncoder(AbstractItemEncoder):
 
             asn1Spec = asn1Spec.clone(tagSet=tagSet)
 
+        # chunks are runs of the octets that were measured above, not of the
+        # characters of a text value (which may take more than one octet each)
+        octets = substrate
+
         pos = 0
         substrate = null
 
         while True:
-            chunk = value[pos:pos + maxChunkSize]
+            chunk = octets[pos:pos + maxChunkSize]
             if not chunk:
                 break
 
